@@ -422,6 +422,9 @@ class Executor:
             run.unavailable.clear()
             run.unfresh.clear()
             wants_defer = False
+            # Stop dispatching right away, as `_report_run` does for an ordinary failure:
+            # the report of this run is a round trip during which the job loop goes on.
+            self.scheduler.draining = True
             self.workflow.update_file_hashes(new_inp_hashes, cause=HashUpdateCause.FAILED)
         elif wants_defer:
             # Rescheduling in the `mark_completed()`` method needs the new hash to be None,
@@ -515,6 +518,8 @@ class Executor:
         # so the step is flagged as failed and the scheduler held.
         unexpected_input_changes = len(new_inp_hashes) > 0
         if unexpected_input_changes:
+            # Stop dispatching before the failure is reported (a round trip), not after.
+            self.scheduler.draining = True
             async with self.db:
                 self.workflow.update_file_hashes(new_inp_hashes, cause=HashUpdateCause.FAILED)
         await self._finalize_failed_run(run)
